@@ -8,3 +8,5 @@ import TeaTasting.Props.C12Compose
 #print axioms C12.agreeOn_of_agreeCols
 #print axioms C12.ratio_frame
 #print axioms C12.ratio_entries_eq_standalone
+#print axioms C12.readsExact_of_answersFrom
+#print axioms C12.ratio_entries_eq_standalone_on_exact_backend
